@@ -258,6 +258,27 @@ def run(ctx):
         ops.append({"op": "save"})
         ops.append({"op": "reopen"})
         extra.append((100000 + i, ops, (nr, nc), ctx.scratch, False))
+    # a persisted merge that later disappears altogether: merge, save, delete every row (or column) of the rectangle, save, reopen -
+    # the second file must not show the rectangle of the first
+    for i in range(12 if q else 200):
+        nr, nc = rng.choice([(5, 6), (6, 6), (7, 4)])
+        r1, c1 = rng.randint(1, nr - 1), rng.randint(1, nc - 1)
+        r2, c2 = rng.randint(r1, min(nr, r1 + 2)), rng.randint(c1, min(nc, c1 + 2))
+        if (r1, c1) == (r2, c2):
+            r2 = min(nr, r1 + 1)
+            if r2 == r1:
+                continue
+        ops = [{"op": "merge", "rs": [[r1, c1, r2, c2]]}, {"op": "save"}]
+        if i % 4 == 0:
+            ops.append({"op": "reopen"})
+        if i % 2 == 0 and r2 - r1 + 1 < nr:
+            ops.append({"op": "delrow", "n": r2 - r1 + 1, "at": r1})
+        elif c2 - c1 + 1 < nc:
+            ops.append({"op": "delcol", "n": c2 - c1 + 1, "at": c1})
+        else:
+            continue
+        ops += [{"op": "save"}, {"op": "reopen"}, {"op": "save"}]
+        extra.append((200000 + i, ops, (nr, nc), ctx.scratch, False))
     traces = pmap(run_history, jobs + extra, ctx.workers, chunksize=8)
     ctx.evaluations += len(traces)
     for t in traces:
